@@ -27,7 +27,12 @@ CLAIM = dict(
     "(A_prev·A_new, b_prev·A_new + b_new) in the row-vector convention of apply_balance; what AdaptiveBalance.find_balance "
     "accumulates is exactly that for every stage mode, hence after any sequence of stages applying the accumulated balance "
     "equals applying the stage balances one after the other; the least-squares objective is >= 0 and = 0 at the true map when "
-    "the destinations are an exact image (exact maps are global minimisers). For the unfixed accumulation (A_new·A_prev, "
+    "the destinations are an exact image (exact maps are global minimisers), CONVERSELY a zero objective reproduces every "
+    "destination (residual_zero_reproduces, residual_zero_iff), and the optimiser contract is isolated: any search returning a point "
+    "no worse than its start never increases the residual (fit_never_increases) and any point no worse than the truth reproduces an "
+    "exactly solvable fit (exact_fit_reproduces) - so the observed part is exactly 'Powell returns a point no worse than its start / "
+    "than the truth within tolerance'. The objective closures, start vectors and result unpacking of find_balance are tied exactly "
+    "with the optimiser replaced by a recorder. clip=True is modelled (pipelineClip, clip01_range). For the unfixed accumulation (A_new·A_prev, "
     "translation untouched in non-affine stages) the negation is proved by witnesses and equality is proved for commuting "
     "stages with zero translation. Round 2: reshape commutes with the row-vector action (apply_flatten_commute, apply_chunk_commute: "
     "4x6x3 <-> 24x3; apply_rows_commute for swatches[-1] / swatches[:-1]) and the ColorCorrection.correct_array pipeline is the "
@@ -41,7 +46,9 @@ CLAIM = dict(
     "truths near the identity, all balance classes and all ordered pairs / triples of staged modes, from the identity and from "
     "non-identity start balances (warm starts), through the two-step path and the one-shot entry points; and that ColorCorrection on "
     "a non-affine camera response equals WhiteBalance (grey row) then Affine/ColorBalance (white-balanced colour rows).",
-    note="optimiser contract is sampled, not proved; a tolerance miss is re-fitted once (find_balance restarts from the current "
+    note="ColorCorrection with balancing='colour' (colour-science routines) is outside the model and the check; the final "
+    ".astype(float32) of correct_array is a per-value rounding that is not modelled (the exact tie uses float32-representable "
+    "values). optimiser contract is sampled, not proved; a tolerance miss is re-fitted once (find_balance restarts from the current "
     "balance) before it counts.",
     technique="Lean 4 proof of the composition algebra + exact differential correspondence with stubbed stage fits + property "
     "oracle with real Powell fits",
@@ -436,13 +443,14 @@ def corr_pipeline(ctx, d):
         scale = ctx.rng.choice([6, 8])
         sw, img = dyadic_checker(ctx.rng, scale)
         ident = ("diagonal", [[Fr(int(a == b)) for b in range(3)] for a in range(3)], [Fr(0)] * 3)
-        lines.append(f"pipeline {int(wb)} {stage_tokens(*(s1 if wb else ident))} {stage_tokens(*s2)} 4 6 "
+        clip = bool((i // 4) % 2)
+        lines.append(f"pipeline {int(wb)} {int(clip)} {stage_tokens(*(s1 if wb else ident))} {stage_tokens(*s2)} 4 6 "
                      + " ".join(fmt(x) for x in sw.reshape(-1, 3).ravel()))
 
         def run():
             n0, n1 = img.shape[:2]
             cc = d.ColorCorrection(config={"roi": [[0, 0], [n0 - 1, 0], [n0 - 1, n1 - 1], [0, n1 - 1]], "colorbalancing": mode,
-                                           "whitebalancing": wb, "balancing": "darsia"})
+                                           "whitebalancing": wb, "balancing": "darsia", "clip": clip})
             queue, log = ([s1] if wb else []) + [s2], []
             with Stub(d, queue, log):
                 out = cc.correct_array(img.copy())
@@ -501,6 +509,67 @@ def corr_entry_points(ctx, d):
         r = call(run)
         impl.append(repr(r) if isinstance(r, Raised) else r)
     return ctx.correspond("one-shot entry points balance(img, src, dst) / shortcuts (stubbed fits, exact)", lines, impl)
+
+
+def corr_objective_closures(ctx, d):
+    """the objective closures inside find_balance, the start vector handed to the optimiser and the unpacking of its result, tied
+    directly: scipy.optimize.minimize is replaced (for the duration of one call) by a recorder that evaluates the closure at the
+    start vector and at a dyadic probe and returns the probe. Exact on dyadic swatches."""
+    import types
+
+    import scipy.optimize as so
+
+    lines, impl = [], []
+    for i in range(ctx.pick(12, 90)):
+        mode = MODES[i % 3]
+        start = rand_stage(ctx.rng, mode)
+        probe = rand_stage(ctx.rng, mode)
+        shape = ctx.rng.choice([(5, 3), (4, 6, 3), (2, 3, 3)])
+        n = int(np.prod(shape[:-1]))
+        src = [[Fr(ctx.rng.randint(0, 8), 8) for _ in range(3)] for _ in range(n)]
+        dst = [[Fr(ctx.rng.randint(0, 8), 8) for _ in range(3)] for _ in range(n)]
+        pairs = f" {n} " + " ".join(fmt(x) for a, b in zip(src, dst) for x in a + b)
+        for (A, b) in (start, probe):
+            lines.append("residual " + " ".join(fmt(x) for r in A for x in r) + " " + " ".join(fmt(x) for x in b) + pairs)
+
+        def vec(A, b):
+            if mode == "diagonal":
+                return [float(A[k][k]) for k in range(3)]
+            flat = [float(x) for r in A for x in r]
+            return flat + [float(x) for x in b] if mode == "affine" else flat
+
+        def run():
+            bal = getattr(d, CLS[mode])()
+            bal.balance_scaling = np.array([[float(x) for x in r] for r in start[0]])
+            if mode == "affine":
+                bal.balance_translation = np.array([float(x) for x in start[1]])
+            rec = {}
+
+            def fake(fun, x0, *a, **k):
+                rec["x0"] = np.array(x0, float).copy()
+                rec["f0"] = float(fun(np.array(x0, float)))
+                xp = np.array(vec(*probe))
+                rec["fp"] = float(fun(xp))
+                return types.SimpleNamespace(x=xp, success=True, fun=rec["fp"])
+
+            orig = so.minimize
+            so.minimize = fake
+            try:
+                bal.find_balance(np.array([[float(x) for x in p] for p in src]).reshape(shape),
+                                 np.array([[float(x) for x in p] for p in dst]).reshape(shape))
+            finally:
+                so.minimize = orig
+            if "x0" not in rec or not np.array_equal(rec["x0"], np.array(vec(*start))):
+                raise ValueError("optimiser was not started from the current balance")
+            if not np.array_equal(np.asarray(bal.balance_scaling, float), np.array([[float(x) for x in r] for r in probe[0]])):
+                raise ValueError("result of the optimiser is not installed as balance_scaling")
+            if mode == "affine" and not np.array_equal(np.asarray(bal.balance_translation, float), np.array([float(x) for x in probe[1]])):
+                raise ValueError("result of the optimiser is not installed as balance_translation")
+            return fmt(rec["f0"]), fmt(rec["fp"])
+
+        r = call(run)
+        impl += [repr(r), repr(r)] if isinstance(r, Raised) else [r[0], r[1]]
+    return ctx.correspond("find_balance objective closures / start vector / result unpacking (optimiser replaced, exact)", lines, impl)
 
 
 def check_layout_case(d, case):
@@ -753,6 +822,7 @@ def run(ctx):
     corr_apply_and_objective(ctx, d)
     corr_pipeline(ctx, d)
     corr_entry_points(ctx, d)
+    corr_objective_closures(ctx, d)
     oracle(ctx, d)
     ctx.cov["explanation"] = CLAIM["text"]
     ctx.cov["rule"] = ("composition: every mode sequence of length 1-3 plus random sequences of length 2-4 with random dyadic stage "
